@@ -147,6 +147,7 @@ static void run_pairs(void) {
       volatile int inner = 0, outer = 0, bound = -1, after = 0; volatile long d0 = depth_now();
       try {
         if (!dup && (fi * 7 + ti) % 5 == 0) { try { throw(K[ti], "pair %i %$ %i", $I(fi), $(ShowTry, 0), $I(ti)); } catch (e in K[fi]) { inner++; for (int k = 0; k < NK; k++) if (e == K[k]) bound = k; } }
+        else if (!dup && (fi * 5 + ti) % 11 == 2) { try { throw(K[ti], "pair %i (nearest: %$) %i", $I(fi), NULL, $I(ti)); } catch (e in K[fi]) { inner++; for (int k = 0; k < NK; k++) if (e == K[k]) bound = k; } }     /* (a message that shows a NULL object) */
         else if (!dup && (fi * 3 + ti) % 7 == 1) { try { throw(K[ti], "pair %i%% of %i%%", $I(fi), $I(ti)); } catch (e in K[fi]) { inner++; for (int k = 0; k < NK; k++) if (e == K[k]) bound = k; } }     /* (a message with per cent signs) */
         else if (!dup) { try { throw(K[ti], "pair %i %i", $I(fi), $I(ti)); } catch (e in K[fi]) { inner++; for (int k = 0; k < NK; k++) if (e == K[k]) bound = k; } }
         else { try { throw(K[ti], "pair %i %i", $I(fi), $I(ti)); } catch (e in K[fi], K[fi]) { inner++; for (int k = 0; k < NK; k++) if (e == K[k]) bound = k; } }
